@@ -117,6 +117,7 @@ type Explorer struct {
 
 	EnvChoices bool
 	NoPruneFS  bool
+	AllVisible bool
 	NoConfirm  bool // do not demand 5 identical replays (race reports may be rate limited by the detector)
 
 	Stats      Stats
@@ -265,7 +266,7 @@ func (e *Explorer) explore(prefix []int, depth int) {
 		e.cut = true
 		return
 	}
-	cfg := vsched.Config{Prefix: prefix, Prune: e.pruneFn, W: e.w, EnvChoices: e.EnvChoices, YieldAfterRelease: e.NoConfirm, Watchdog: 120 * time.Second}
+	cfg := vsched.Config{Prefix: prefix, Prune: e.pruneFn, W: e.w, EnvChoices: e.EnvChoices, YieldAfterRelease: e.NoConfirm || e.AllVisible, AllVisible: e.AllVisible, Watchdog: 120 * time.Second}
 	x := e.Run(cfg)
 	e.Stats.Execs++
 	e.Stats.TotalRuns++
@@ -373,7 +374,7 @@ func (e *Explorer) observe(x *Exec) {
 		// re-execute 5 times from the recorded choice vector: the same schedule must fail every time
 		conf := 0
 		for r := 0; r < 5; r++ {
-			y := e.Run(vsched.Config{Prefix: v.Choices, W: e.w, EnvChoices: e.EnvChoices, YieldAfterRelease: e.NoConfirm, Watchdog: 120 * time.Second})
+			y := e.Run(vsched.Config{Prefix: v.Choices, W: e.w, EnvChoices: e.EnvChoices, YieldAfterRelease: e.NoConfirm || e.AllVisible, AllVisible: e.AllVisible, Watchdog: 120 * time.Second})
 			if y.Res.Diverged != "" || y.Outcome() != oc {
 				continue
 			}
